@@ -122,7 +122,7 @@ pub fn run(cfg: &Cfg, rng: &mut Rng, out: &mut Out) {
     let fpts = gens::to_f(&gens::general_position(rng, 2, 6, 8), 1.0, 0.0);
     let fw: World<2> = hist::start_built::<2>(&fpts, 1, rng).expect("foreign triangulation");
     let foreign = fw.dt.cells().map(|(k, _)| k).last().unwrap();
-    let n = if thorough { 400 } else { 48 };
+    let n = if thorough { 400 } else { 120 };
     let nq = if thorough { 40 } else { 20 };
     for i in 0..n {
         let id = format!("l{i}");
